@@ -37,6 +37,7 @@ def _script(info, path):
         print('code side: the generated behaviour does not complete (exit %s)' % ex.rc); return True
     evs = sr.load_events(ex.trace); bad = False
     keep = p_api.PLANS[prop][0] if prop in p_api.PLANS else p_api.PLANS['C01'][0]
+    if prop == 'C19': keep = lambda e: e['e'] in sr.API_ALL or e['e'] == 'repair'     # as run_c19
     layers = []
     if prop in p_api.PLANS or prop == 'C19':
         layers.append(('KvTrace', 'KvTrace_C19.cfg' if prop == 'C19' else 'KvTrace.cfg', [e for e in evs if keep(e)]))
